@@ -83,6 +83,36 @@ CHECKS = [
         "HiPS workflow excluded (needs Java and a download). WWTL and multi-TAN CLI share the Builder path and are not run.",
         "machine-checked proof (Coq, string model + history induction) + vm_compute correspondence incl. end-to-end workflows",
         "DESIGN.md section 5, C17"),
+    chk("C16",
+        "Coq theorems over Q for the linear WCS as read from CDELT*PC (every non-singular CD, CRPIX anywhere, every height, "
+        "images and data-less descriptions): the flip negates the parity sign, the intermediate world coordinates of pixel "
+        "(x, y) before equal those of (x, h-1-y) after (by ring, even for fractional pixels), rows are reversed, the flip is "
+        "an involution, ensure_negative_parity is idempotent and yields -1. Tie to /repo: exact comparison of header values "
+        "of real astropy WCS objects (dyadic entries) before and after flip_parity / ensure_negative_parity, and "
+        "wcs_pix2world within 1e-9 deg on rotated/skewed WCSs and the test files.",
+        "Trusted: kernel, model, astropy/wcslib (to_header, the celestial projection). Float rounding outside the model.",
+        "machine-checked proof (Coq) + model/implementation correspondence by vm_compute", "DESIGN.md section 5, C16"),
+    chk("C18",
+        "Coq theorems over the Gallina model of PipelineManager.publish, LocalPipelineIo.put_item and refresh's skip rule: "
+        "index.wtml is transferred last and every file exactly once for every directory listing; the crash invariant for "
+        "every listing and every fault point (before/during/after each transfer), several images in any order; a fault-free "
+        "re-run completes; refresh never skips an image with incomplete files; arbitrary sequences of faulted runs for the "
+        "atomic (temporary name + rename) store — refuted with a witness for the in-place store that existed before fix "
+        "eb30ad7. Tie to /repo: the real publish and refresh_impl under injected faults and chosen os.listdir orders, "
+        "exhaustive to 5 files, two-fault sequences, random multi-image histories.",
+        "Trusted: kernel, model, the listdir wrapper and fault-injecting store subclass, POSIX open/rename semantics. Only "
+        "the local store is executed (Azure is not reachable).",
+        "machine-checked proof (Coq) + model/implementation correspondence by vm_compute", "DESIGN.md section 5, C18"),
+    chk("C20",
+        "Coq theorems over the Gallina model of SimpleFitsCollection._scan_hdus/_load and the option parsers (all "
+        "collections, all none/scalar/list selections, command-line round-trip): scalars apply to every file, lists are "
+        "positional for HDU and WCS key, the default is the first image HDU, descriptions/images/export agree in input order. "
+        "Tie to /repo: load, SimpleFitsCollection, tile_fits, create_from_args and the real `view` / `tile-multi-tan` "
+        "command lines on generated multi-extension FITS files, plus complete tile_fits runs checked on tile pixels. The "
+        "pre-fix behaviour (hdul[self._hdu_index]) is kept as the `old` model variant with its refutation witness.",
+        "Trusted: kernel, model, the HDU abstraction, astropy fits/wcs, recorder tilers. Data cubes, CompImageHDU, the "
+        "PV1_5 hack and blankval are not modelled.",
+        "machine-checked proof (Coq) + model/implementation correspondence by vm_compute", "DESIGN.md section 5, C20"),
     chk("C19",
         "The faithful LTS models of the current code refute the property (Coq theorems c19_visit_returns_normally_refuted, "
         "c19_visit_hangs_refuted/deadlock, c19_walk_hangs_refuted, each a concrete schedule evaluated by the kernel); the "
